@@ -200,6 +200,7 @@ func (l *Lexer) scanAccount() Token {
 	start := l.pos
 	startPos := l.position()
 	lastNonSpace := start
+	endPos := startPos
 
 	for l.pos < len(l.input) {
 		r, size := utf8.DecodeRuneInString(l.input[l.pos:])
@@ -220,10 +221,11 @@ func (l *Lexer) scanAccount() Token {
 		l.pos += size
 		l.column += utf16Width(r)
 		lastNonSpace = l.pos
+		endPos = l.position()
 	}
 
 	value := l.input[start:lastNonSpace]
-	return Token{Type: TokenAccount, Value: value, Pos: startPos, End: l.position()}
+	return Token{Type: TokenAccount, Value: value, Pos: startPos, End: endPos}
 }
 
 // isAccountTerminator returns true for characters that end account names in hledger format.
